@@ -23,6 +23,7 @@ type controlMeta struct {
 	Expect       string `json:"expect"`
 	What         string `json:"what"`
 	ExpectSilent bool   `json:"expect_silent"`
+	ExpectProven string `json:"expect_proven"` // with expect_silent: this obligation key prefix must be PROVEN on the variant
 }
 
 type controlResult struct {
@@ -107,10 +108,13 @@ func runOneControl(c *Ctx, exe, prop, metaPath string) controlResult {
 		res.Outcome, res.Detail = "error", err.Error()
 		return res
 	}
-	var viols []string
+	var viols, provens []string
 	for _, line := range strings.Split(out.String(), "\n") {
 		if strings.HasPrefix(line, "OB "+stViol+" ") {
 			viols = append(viols, strings.TrimPrefix(line, "OB "+stViol+" "))
+		}
+		if strings.HasPrefix(line, "OB "+stProven+" ") {
+			provens = append(provens, strings.TrimPrefix(line, "OB "+stProven+" "))
 		}
 	}
 	if code == 2 {
@@ -125,6 +129,18 @@ func runOneControl(c *Ctx, exe, prop, metaPath string) controlResult {
 	if m.ExpectSilent {
 		if len(viols) == 0 && code == 0 {
 			res.Outcome = "silent-as-expected"
+			if m.ExpectProven != "" {
+				found := false
+				for _, pv := range provens {
+					if strings.HasPrefix(pv, m.ExpectProven) {
+						found = true
+						res.Detail = "proven: " + pv
+					}
+				}
+				if !found {
+					res.Outcome, res.Detail = "MISSED", "expected "+m.ExpectProven+" to be PROVEN on the repaired variant"
+				}
+			}
 		} else {
 			res.Outcome, res.Detail = "FALSE-ALARM", strings.Join(viols, " ; ")
 		}
